@@ -312,11 +312,14 @@ func (sg *sessGen) activeOp(o sessOpts) {
 			}
 		}
 		sg.add(p)
-	case k < 13: // UNSUBSCRIBE
+	case k < 14: // UNSUBSCRIBE (mostly of names that may well have a topic id in this session)
 		p := refsn.Pkt{Type: refsn.UNSUBSCRIBE, MsgID: sg.nextMid()}
 		switch g.Intn(3) {
 		case 0:
 			p.TIT, p.TopicName = refsn.TITNormal, append(namePool, wildPool...)[g.Intn(len(namePool)+len(wildPool))]
+			if g.Bool(0.6) {
+				p.TopicName = namePool[g.Intn(len(namePool))]
+			}
 		case 1:
 			p.TIT, p.TopicID = refsn.TITPredefined, uint16(g.Range(1, 8))
 		case 2:
